@@ -573,6 +573,126 @@ Definition fn_paf_inputs (kps : list (list kp)) (g : geom) (psigma : Q) (pstride
   (edges : list (nat * nat)) : paf_in := (kps, gh g, gw g, psigma, pstride, edges).
 
 (* ------------------------------------------------------------------ *)
+(* round 2: the remaining legacy blocks (SizeMatcher, LabelsReaderDP), the
+   user-instance filter, and the four COMPOSED legacy pipelines of
+   pipelines.py (make_training_pipeline, augmentation off)              *)
+
+(* resizing.SizeMatcher.__iter__: pads bottom/right up to (max_height,
+   max_width) — it never rescales and `raise`s (None) when the image is larger.
+   A None bound is replaced by the image's own size.  apply_sizematcher, the
+   function of the same name, rescales to fit: the two are NOT counterparts
+   in general (Props: c18_dp_sizematcher_pad_only / _differs / _raises). *)
+Definition dp_sizematcher (mh mw : option Z) (g : geom) : option geom :=
+  let mh' := match mh with Some v => v | None => gh g end in
+  let mw' := match mw with Some v => v | None => gw g end in
+  if ((mh' <? gh g) || (mw' <? gw g))%Z then None else Some (img_pad_to mh' mw' g).
+
+(* providers.LabelsReaderDP.__iter__ (instances_key=True): non-empty instances,
+   ALWAYS NaN-padded by |max_instances - num| (process_lf skips the padding when
+   max_instances = 1) *)
+Definition dp_labels_reader (maxinst : nat) (raw : list (list kp)) : list (list kp) * nat :=
+  let ne := filter nonempty raw in
+  let num := length ne in
+  let nodes := match ne with i :: _ => length i | [] => O end in
+  (ne ++ repeat (repeat None nodes) (absdiff maxinst num), num).
+
+(* `if user_instances_only: if len(lf.user_instances) > 0: lf.instances = lf.user_instances`
+   (process_lf, _get_lf_idx_list, _get_instance_idx_list); an instance is
+   (is_predicted, keypoints) *)
+Definition is_user (i : bool * list kp) : bool := negb (fst i).
+Definition user_filter (user_only : bool) (insts : list (bool * list kp)) : list (list kp) :=
+  map snd (if user_only then match filter is_user insts with [] => insts | u => u end else insts).
+(* LabelsReaderDP.__init__ keeps, under user_instances_only, only the frames that
+   HAVE user instances (the functions keep a frame with predicted instances only) *)
+Definition dp_reader_keeps (user_only : bool) (insts : list (bool * list kp)) : bool :=
+  negb user_only || existsb is_user insts.
+
+(* Resizer on the "instances" key *)
+Definition dp_resizer_insts (scale : Q) (x : geom * list (list kp)) : geom * list (list kp) :=
+  if negb (Qeq_bool scale 1) then (resize_image scale (fst x), scale_insts scale (snd x)) else x.
+
+(* provider -> Normalizer -> SizeMatcher: the common head of all four pipelines *)
+Definition dp_front (c : cfg) (fr : frame) : option (geom * (list (list kp) * nat)) :=
+  match dp_sizematcher (c_maxh c) (c_maxw c) (dp_normalizer (c_rgb c) (source_img fr)) with
+  | None => None
+  | Some g => Some (g, dp_labels_reader (f_maxinst fr) (f_raw fr))
+  end.
+
+(* SingleInstanceConfmapsPipeline: Resizer -> PadToStride -> ConfidenceMapGenerator("instances") *)
+Definition dp_single (c : cfg) (fr : frame) : option out :=
+  match dp_front c fr with
+  | None => None
+  | Some (g, (kps, num)) =>
+      let r := dp_resizer_insts (c_scale c) (g, kps) in
+      let g := dp_pad_to_stride (c_ms c) (fst r) in
+      Some {| o_img := g; o_pts := snd r; o_cents := []; o_num := num; o_tl := None;
+              o_cm := cm_single (snd r) g c; o_paf := None |}
+  end.
+
+(* BottomUpPipeline: Resizer -> PadToStride -> MultiConfidenceMapGenerator(centroids=False:
+   NO [:num] slice) -> PartAffinityFieldsGenerator *)
+Definition dp_bottomup (c : cfg) (fr : frame) : option out :=
+  match dp_front c fr with
+  | None => None
+  | Some (g, (kps, num)) =>
+      let r := dp_resizer_insts (c_scale c) (g, kps) in
+      let g := dp_pad_to_stride (c_ms c) (fst r) in
+      Some {| o_img := g; o_pts := snd r; o_cents := []; o_num := num; o_tl := None;
+              o_cm := (snd r, gh g, gw g, c_sigma c, c_stride c); o_paf := paf_of (snd r) g c |}
+  end.
+
+(* CentroidConfmapsPipeline: Resizer -> PadToStride -> InstanceCentroidFinder ->
+   MultiConfidenceMapGenerator(centroids=True: slices [:num]) *)
+Definition dp_centroid (c : cfg) (fr : frame) : option out :=
+  match dp_front c fr with
+  | None => None
+  | Some (g, (kps, num)) =>
+      let r := dp_resizer_insts (c_scale c) (g, kps) in
+      let g := dp_pad_to_stride (c_ms c) (fst r) in
+      let cs := dp_centroid_finder (c_anchor c) (c_wt c) (snd r) in
+      Some {| o_img := g; o_pts := snd cs; o_cents := fst cs; o_num := num; o_tl := None;
+              o_cm := cm_cent (fst cs) num g c; o_paf := None |}
+  end.
+
+(* TopdownConfmapsPipeline, k-th example of the frame: InstanceCentroidFinder ->
+   InstanceCropper(crop_hw: no sqrt-2 over-crop, no re-crop) -> Resizer("instance_image",
+   "instance": the centroid is not scaled) -> PadToStride -> ConfidenceMapGenerator("instance") *)
+Definition dp_topdown (c : cfg) (fr : frame) (k : nat) : option out :=
+  match dp_front c fr with
+  | None => None
+  | Some (g, (kps, num)) =>
+      let cs := dp_centroid_finder (c_anchor c) (c_wt c) kps in
+      match nth_error (dp_cropper g (c_croph c) (c_cropw c) num O (combine (snd cs) (fst cs))) k with
+      | None => None
+      | Some r =>
+          let x := dp_resizer (c_scale c) (cr_img r, cr_inst r) in
+          let g := dp_pad_to_stride (c_ms c) (fst x) in
+          Some {| o_img := g; o_pts := [snd x]; o_cents := [cr_cent r]; o_num := num; o_tl := cr_tl r;
+                  o_cm := cm_inst (snd x) g c; o_paf := None |}
+      end
+  end.
+
+Definition dp_pipeline (t : mtype) (c : cfg) (fr : frame) : option out :=
+  match t with
+  | Single => dp_single c fr
+  | BottomUp => dp_bottomup c fr
+  | Centroid => dp_centroid c fr
+  | Centered k => dp_topdown c fr k
+  end.
+
+(* keypoints given in lowest terms (every rational has such a representative; the
+   model's results are Qred-normalised, its inputs need not be) *)
+Definition kp_normal (p : kp) : Prop :=
+  match p with Some (x, y) => Qred x = x /\ Qred y = y | None => True end.
+Definition insts_normal (l : list (list kp)) : Prop := Forall (Forall kp_normal) l.
+
+(* the frame already has the target size in one direction and is not larger in
+   the other: both size matchers only pad *)
+Definition sm_pad_only (c : cfg) (fr : frame) : Prop :=
+  exists mh mw, c_maxh c = Some mh /\ c_maxw c = Some mw /\
+    (0 < f_h fr <= mh)%Z /\ (0 < f_w fr <= mw)%Z /\ (f_h fr = mh \/ f_w fr = mw).
+
+(* ------------------------------------------------------------------ *)
 (* entry point for the correspondence harness                          *)
 
 Inductive case :=
@@ -581,7 +701,10 @@ Inductive case :=
 | CBlockResize (dp : bool) (scale : Q) (g : geom) (pts : list kp)
 | CBlockPad (ms : Z) (g : geom)
 | CBlockCentroid (anchor : option nat) (wt : bool) (insts : list (list kp))
-| CBlockCrop (dp : bool) (g : geom) (bh bw : Z) (num : nat) (insts : list (list kp)) (cents : list kp).
+| CBlockCrop (dp : bool) (g : geom) (bh bw : Z) (num : nat) (insts : list (list kp)) (cents : list kp)
+| CDPipe (t : mtype) (c : cfg) (fr : frame)                       (* composed legacy pipeline; [] = raises *)
+| CBlockSizeMatcher (dp : bool) (mh mw : option Z) (g : geom)     (* [] = raises *)
+| CBlockReader (dp : bool) (user_only : bool) (maxinst : nat) (insts : list (bool * list kp)).
 
 (* a uniform result: image geometry, points, centroids, num, top-left, target sizes *)
 Definition block_out (g : geom) (pts : list (list kp)) (cents : list kp) : out :=
@@ -601,6 +724,17 @@ Definition run (c : case) : list out :=
       map (fun r => {| o_img := cr_img r; o_pts := [cr_inst r]; o_cents := [cr_cent r]; o_num := num;
                        o_tl := cr_tl r; o_cm := ([], 0%Z, 0%Z, 0, O); o_paf := None |})
           ((if dp then dp_cropper else fn_cropper) g bh bw num O (combine insts cents))
+  | CDPipe t c fr => match dp_pipeline t c fr with Some o => [o] | None => [] end
+  | CBlockSizeMatcher dp mh mw g =>
+      if dp then match dp_sizematcher mh mw g with Some g' => [block_out g' [] []] | None => [] end
+      else let r := apply_sizematcher mh mw g in
+           [{| o_img := fst r; o_pts := []; o_cents := [Some (snd r, snd r)]; o_num := O; o_tl := None;
+               o_cm := ([], 0%Z, 0%Z, 0, O); o_paf := None |}]
+  | CBlockReader dp uo maxinst insts =>
+      if dp && negb (dp_reader_keeps uo insts) then [] else
+      let r := (if dp then dp_labels_reader else process_lf) maxinst (user_filter uo insts) in
+      [{| o_img := source_img {| f_h := 0; f_w := 0; f_c := 0; f_raw := []; f_maxinst := O |};
+          o_pts := fst r; o_cents := []; o_num := snd r; o_tl := None; o_cm := ([], 0%Z, 0%Z, 0, O); o_paf := None |}]
   end.
 
 From SV Require Import Base.Render.
